@@ -976,6 +976,10 @@ func (in *Interp) dispatch(fr *frame, site ssa.CallInstruction, cc *ssa.CallComm
 		case BoundMethod:
 			name = "bound:" + f.Name
 			args = append([]Val{f.Recv}, args...)
+		case Opaque:
+			// a function value the interpreter does not hold: models may
+			// recognise it by its key
+			name = "dyn:" + f.Key
 		default:
 			in.undecided("call of %T at %s", fnv, in.c.P.instrPos(site))
 		}
